@@ -874,10 +874,30 @@ class Model:
                     ]
                     return ca.mtimes(J(deps), ca.vertcat(*der_deps))
 
+            eliminated_values = {}
+
+            def is_cyclic(variable, value):
+                # Would "variable := value" refer back to variable itself,
+                # directly or through the variables eliminated so far?  Such
+                # an assignment cannot be substituted away; its equation stays.
+                pending, seen = [value], set()
+                while pending:
+                    for dep in ca.symvar(ca.MX(pending.pop())):
+                        name = dep.name()
+                        if name == variable.name():
+                            return True
+                        if name in eliminated_values and name not in seen:
+                            seen.add(name)
+                            pending.append(eliminated_values[name])
+                return False
+
             reduced_equations = []
             for eq in self.equations:
                 variable, value = extract_assignment(eq)
+                if variable is not None and is_cyclic(variable, value):
+                    variable = None
                 if variable is not None:
+                    eliminated_values[variable.name()] = value
                     if variable.name() in states:
                         # Mark derivative state for replacement too.
                         derivative = get_derivative(value)
